@@ -2,6 +2,7 @@
 package c13
 
 import (
+	"math"
 	"context"
 	"encoding/json"
 	"errors"
@@ -20,7 +21,7 @@ import (
 	"verif/harness/ev"
 )
 
-const rule = "cases = histories of Sample(level) calls with clock readings (non-monotonic allowed, >= epoch) supplied through TimestampFunc, over sampler compositions (Basic N, Burst{Burst,Period,Next}, LevelSampler, nested), bare and behind a Logger with level gates and DisableSampling toggles, events entering through WithLevel, the level methods, Log, Logger.Write, Print/Printf/Println and Err; bounded-exhaustive over short histories on a 7-tick clock alphabet, random for long histories and large parameters; concurrent goroutines on one BasicSampler. oracle = reference sampler model. non-trivial = history crossing >=1 window boundary or reaching a NextSampler; distinct = FNV-64 of (sampler spec, history), enumerations by construction"
+const rule = "cases = histories of Sample(level) calls with clock readings (non-monotonic allowed, >= epoch, and a clock that returns the zero time.Time for the first calls) supplied through TimestampFunc, over sampler compositions (Basic N, Burst{Burst,Period,Next}, LevelSampler, nested), bare and behind a Logger with level gates and DisableSampling toggles, events entering through WithLevel, the level methods, Log, Logger.Write, Print/Printf/Println and Err; bounded-exhaustive over short histories on a 7-tick clock alphabet, random for long histories and large parameters; concurrent goroutines on one BasicSampler. oracle = reference sampler model. non-trivial = history crossing >=1 window boundary or reaching a NextSampler; distinct = FNV-64 of (sampler spec, history), enumerations by construction"
 
 var rec = ev.New("C13", rule)
 
@@ -95,7 +96,19 @@ func newModel(s *Spec) *model {
 	return m
 }
 
+// zeroClock as a reading: TimestampFunc returns the zero time.Time (a stubbed or uninitialised clock), whose
+// UnixNano is a fixed, very negative number: a reading like any other, long before every later one.
+const zeroClock = math.MinInt64
+
+func modelNow(c int64) int64 {
+	if c == zeroClock {
+		return time.Time{}.UnixNano()
+	}
+	return c
+}
+
 func (m *model) sample(lvl int, now int64) bool {
+	now = modelNow(now)
 	switch m.s.Kind {
 	case "basic":
 		if m.s.N == 0 {
@@ -194,6 +207,9 @@ func init() {
 			clock = n.Now
 			nestedGot, nestedRan = nestedSampler.Sample(zerolog.Level(n.Lvl)), true
 			clock = saved
+		}
+		if clock == zeroClock {
+			return time.Time{}
 		}
 		return time.Unix(0, clock)
 	}
@@ -376,7 +392,17 @@ func genCalls(rt *rapid.T, maxLen int) []Call {
 	n := rapid.IntRange(1, maxLen).Draw(rt, "ncalls")
 	calls := make([]Call, n)
 	now := int64(0)
+	// a clock that hands out the zero time.Time for the first calls (not yet initialised), then real readings
+	zeros := 0
+	if rapid.IntRange(0, 11).Draw(rt, "zeroclock") == 0 {
+		zeros = rapid.IntRange(1, 8).Draw(rt, "zeros")
+		now = 1000
+	}
 	for i := range calls {
+		if i < zeros {
+			calls[i] = Call{Lvl: rapid.SampledFrom([]int{-1, 0, 1, 2, 3, 4, 5, 6, 9, -3}).Draw(rt, "lvl"), Now: zeroClock}
+			continue
+		}
 		switch rapid.IntRange(0, 5).Draw(rt, "clk") {
 		case 0:
 			now += 10
@@ -387,6 +413,9 @@ func genCalls(rt *rapid.T, maxLen int) []Call {
 			if now < 0 {
 				now = 0
 			}
+			if zeros > 0 && now < 1 {
+				now = 1
+			}
 		case 3:
 			now += rapid.Int64Range(0, 100).Draw(rt, "fwd")
 		}
@@ -395,6 +424,9 @@ func genCalls(rt *rapid.T, maxLen int) []Call {
 			nn := now + rapid.Int64Range(-20, 40).Draw(rt, "nestednow")
 			if nn < 0 {
 				nn = 0
+			}
+			if zeros > 0 && nn < 1 {
+				nn = 1
 			}
 			calls[i].Nested = &Call{Lvl: rapid.SampledFrom([]int{-1, 0, 1, 2, 3}).Draw(rt, "nestedlvl"), Now: nn}
 		}
